@@ -99,6 +99,9 @@ class Ctx:
         return env
 
     def cleanup(self):
+        if os.environ.get("VERIF_KEEP_SCRATCH"):
+            sys.stderr.write("scratch kept: %s\n" % self.scratch)
+            return
         shutil.rmtree(self.scratch, ignore_errors=True)
 
     def path(self, *p):
@@ -398,7 +401,18 @@ def validate_traces(ctx, module, cfg_text, records, shards=None, env=None, const
     out = {t: [] for t in tags}
     gen = 0
     with cf.ThreadPoolExecutor(max_workers=shards) as ex:
-        for res in ex.map(one, files):
+        for res, fn_ in zip(ex.map(one, files), files):
+            if getattr(res, "error", None):
+                # name the record TLC was working on: the last "l = N" of the printed behaviour is the number of records
+                # consumed, the next line of the shard is the one that could not be evaluated
+                ls = re.findall(r"^l = (\d+)", res.out, flags=re.M)
+                if ls:
+                    try:
+                        with open(fn_) as f_:
+                            rec = f_.readlines()[int(ls[-1])]
+                        res.error = "%s\n  while evaluating record %d of %s: %s" % (res.error[:400], int(ls[-1]) + 1, os.path.basename(fn_), rec[:3000])
+                    except Exception:  # noqa
+                        pass
             res.require_clean()
             if res.invariant_violated or res.property_violated:
                 raise Machinery("trace spec %s: invariant violated (verdicts must be total): %s" % (module, res.out[-1500:]))
